@@ -531,7 +531,7 @@ Proof.
   pose proof (pre_clear_vals (flat_map (cells_of st) (Ts ++ parents_of st (orphans st))) st HP) as [HR [HS HB]].
   fold st1 in HR, HS, HB.
   set (seeds := (orphans st ++ filter (is_kind st1 KItem)
-                   (l ++ flat_map (items_of st1) Ts ++ flat_map (dyn_roots st1) (parents_of st (orphans st))))%list).
+                   (l ++ flat_map (dyn_roots st1) Ts ++ flat_map (dyn_roots st1) (parents_of st (orphans st))))%list).
   assert (soft_seeds st1 seeds) as Hs.
   { apply soft_app; [exact (orphans_soft st)|apply item_seeds_soft]. }
   split; [apply res_purge; exact HR|]. split; [apply str_purge_under; exact HS|].
